@@ -318,6 +318,14 @@ class C13(vlib.Check):
         (out2, vals2), _ = record_run(make_gen(o), self._input(case))
         if coords(out2) != coords(out):
             return {"key": "seed-not-reproducible", "what": "two runs with seed %s differ" % o["seed"]}
+        # the condensed form of the reported RMSD matrix (sparse_rmsd=True, the generator's default): the strict upper triangle, row by row
+        g3 = ConformerGenerator(num_conf=o["num_conf"], first=o["first"], rmsd_cutoff=o["rmsd_cutoff"], max_energy_diff=o["max_energy_diff"],
+                                forcefield=o["forcefield"], pool_multiplier=o["pool_multiplier"], seed=o["seed"], get_values=True, sparse_rmsd=True)
+        out3, vals3 = g3.generate_conformers(self._input(case))
+        want = [float(rmsds[a, b]) for a in range(k) for b in range(a + 1, k)]
+        got3 = [float(x) for x in np.asarray(vals3[3]).ravel().tolist()]
+        if len(got3) != len(want) or any(abs(x - y) > 1e-9 for x, y in zip(got3, want)):
+            return {"key": "reported-rmsd-wrong:condensed", "what": "the condensed RMSD report has %d values %s, the upper triangle of the matrix is %s" % (len(got3), got3[:4], want[:4])}
         return None
 
     def nontrivial(self, case, a_impl):
